@@ -12,7 +12,7 @@ import (
 // C18: the st command against spec/StCmd.tla.
 
 var stNames = map[int]struct{ src, name string }{
-	1: {"力量", "力量"}, 2: {"敏捷", "敏捷"}, 3: {"hp", "hp"}, 4: {"射击:弓箭", "射击:弓箭"}, 5: {"'a b'", "a b"}, 6: {"'x2'", "x2"},
+	1: {"力量", "力量"}, 2: {"敏捷", "敏捷"}, 3: {"hp", "hp"}, 4: {"射击:弓箭", "射击:弓箭"}, 5: {"'a b'", "a b"}, 6: {"'x2'", "x2"}, 7: {"dex", "dex"},
 }
 
 type stExp struct {
@@ -110,7 +110,7 @@ func init() {
 		fs.Parse(args)
 		w := newNDWriter(*out)
 		defer w.Close()
-		n, bad := 0, 0
+		n, bad, badRunon := 0, 0, 0
 		tails := []string{"", "", " !!", " @", " ；备注", " .", " 。"}
 		for _, suf := range []string{"a1", "m1", "a2", "m2", "a3", "m3"} {
 			f := fmt.Sprintf("%s.%s", *in, suf)
@@ -122,6 +122,7 @@ func init() {
 					Spell string  `json:"spell"`
 					Exp   []stExp `json:"exp"`
 					Ok    bool    `json:"ok"`
+					Runon bool    `json:"runon"`
 				}
 				if err := json.Unmarshal(line, &c); err != nil {
 					fatal("bad case: %v", err)
@@ -154,15 +155,21 @@ func init() {
 						}
 					}
 				}
-				if why != "" {
+				if why != "" && c.Runon {
+					// failures of lists under the known finding are kept apart, so that they cannot crowd out other failures
+					badRunon++
+					if badRunon <= 40 {
+						w.Write(map[string]any{"input": src + tail, "why": why, "exp": c.Exp, "got": calls, "runon": true})
+					}
+				} else if why != "" {
 					bad++
 					if bad <= 400 {
-						w.Write(map[string]any{"input": src + tail, "why": why, "exp": c.Exp, "got": calls})
+						w.Write(map[string]any{"input": src + tail, "why": why, "exp": c.Exp, "got": calls, "runon": c.Runon})
 					}
 				}
 			})
 		}
-		emitSummary(map[string]any{"cases": n, "mismatches": bad})
+		emitSummary(map[string]any{"cases": n, "mismatches": bad, "mismatches_runon": badRunon})
 		return 0
 	}
 }
